@@ -1,4 +1,5 @@
 import BeyondVerif.Model.Cov
+import BeyondVerif.Model.CovHeap
 
 /-!
 # C14 — kernel-checked witness for the regression guarded by the oracle
@@ -98,5 +99,52 @@ theorem current_model_path_independent :
     (run W start [.loc .qsw]).mat = (runOld W start [.loc .qsw]).mat ∧
     (run W start [.frame true]).mat = (runOld W start [.frame true]).mat ∧
     (run W start [.frame true, .loc .qsw]).mat ≠ (runOld W start [.frame true, .loc .qsw]).mat := by decide
+
+/-! ## Several objects: the two regressions guarded by the heap correspondence and the oracle
+families `multi-object` / `derived-alias`
+
+The model of the code (Model/CovHeap.lean: `Heap.hop`, `Heap.derive`) has no memo and gives every
+array made by numpy a `_data` dict of its own.  The two variants below are NOT the code; they are the
+two changes a maintainer could make at these sites, and the kernel-checked statements show what
+each one does to an object other than the one operated on. -/
+section heap
+open BeyondVerif.CovHeap
+
+def HW : HEnv Bool Unit M2 (Int × Int) := { base := W, convAt := fun _ => conv }
+
+/-- two states with the same date and frame, along the first and the second axis -/
+def heap0 : Heap Bool Unit M2 (Int × Int) :=
+  { buf := fun _ => M2.one, data := fun _ => { tag := .loc .qsw, orb := 0 },
+    orb := fun _ => { date := (), frame := false, x := (0, 0) },
+    obj := fun _ => { buf := 0, tr := false, data := 0, orbFrame := none },
+    sv := fun k => { date := (), frame := false, x := if k = 0 then (1, 0) else (0, 1), cov := none },
+    nbuf := 0, ndata := 0, norb := 0, nobj := 0 }
+
+/-- `Cov(sv0, C0, sv0.frame)` and `Cov(sv1, C0, sv1.frame)` -/
+def twoCovs : Heap Bool Unit M2 (Int × Int) := (heap0.newCov 0 (.frame false) C0).newCov 1 (.frame false) C0
+
+/-- **A memo of the hop matrix keyed by (date, `_orb_frame`, current tag, target) gives the second
+state the local axes of the first**: the second covariance comes out as `diag(2, 1)` (the axes of
+state 0) where the code — no memo — gives `diag(1, 2)`; the first one is the same in both. -/
+theorem memo_keyed_without_state_confuses_states :
+    let m := ((⟨twoCovs, []⟩ : MemoHeap Bool Unit M2 (Int × Int)).hop HW 0 (.loc .qsw)).hop HW 1 (.loc .qsw)
+    let h := twoCovs.hops HW [(0, .loc .qsw), (1, .loc .qsw)]
+    (m.heap.view HW 1).mat = ⟨2, 0, 0, 1⟩ ∧ (h.view HW 1).mat = ⟨1, 0, 0, 2⟩ ∧
+    (m.heap.view HW 0).mat = (h.view HW 0).mat ∧ (m.heap.view HW 1).tag = (h.view HW 1).tag := by decide
+
+/-- **`__array_finalize__` handing the template's own `_data` dict to the derived array relabels the
+source**: `c` in QSW, `e = k * c`, `e.frame = "TNW"`; with the shared dict `c` then claims TNW with
+its QSW values untouched; with the code as it is `c` is exactly what it was. -/
+theorem shared_dict_relabels_source :
+    let c := heap0.newCov 0 (.loc .qsw) C0
+    let shared := (c.deriveShared 0 ⟨18, 0, 0, 9⟩).hop HW 1 (.loc .tnw)
+    let own := (c.derive 0 ⟨18, 0, 0, 9⟩).hop HW 1 (.loc .tnw)
+    (shared.view HW 0).tag = .loc .tnw ∧ (shared.view HW 0).mat = C0 ∧
+    (own.view HW 0).tag = .loc .qsw ∧ (own.view HW 0).mat = C0 ∧
+    (own.view HW 1).tag = .loc .tnw ∧ (own.view HW 1).mat = ⟨9, 0, 0, 18⟩ ∧
+    -- and the next conversion of the relabelled source is wrong: back to its state's frame
+    ((shared.hop HW 0 (.frame false)).view HW 0).mat ≠ ((own.hop HW 0 (.frame false)).view HW 0).mat := by decide
+
+end heap
 
 end BeyondVerif.C14W
